@@ -21,7 +21,7 @@ RULE = ("history = sequence of (flag, apid, in-sequence|gap) symbols turned into
         "recorded outputs (raw bytes of each yielded packet, warnings per step) are compared with a per-APID state "
         "machine (UNSEGMENTED alone and not touching an open group; FIRST supersedes; LAST closes and clears; gaps "
         "judged modulo 16384 at LAST). Enumerated completely: all histories of length <= 4 over the 16-symbol alphabet "
-        "(69,904; thorough: length <= 5, 1,118,480) for secondary-header lengths {0,1,4,=data length} rotated, start "
+        "(69,904; thorough: length <= 5, 1,118,480), and with steps {+1,+2,0 (duplicate),-1 (reordered)} up to length 3 (thorough 4), for secondary-header lengths {0,1,4,=data length} rotated, start "
         "counters {16382, 0, 16383}; plus seeded random histories of length 6..60 over 3 APIDs. distinct_nontrivial = "
         "distinct (history shape without ids, secondary header length) signatures that contain at least one "
         "segmented packet; all-UNSEGMENTED histories are trivial and excluded.")
@@ -39,7 +39,9 @@ def make_packets(history, start, apids):
     out = []
     for i, (flag, ai, gap) in enumerate(history):
         apid = apids[ai]
-        seq = (ctr[apid] + (2 if gap else 1)) % 16384
+        # gap: False/True (in sequence / skip one), or an explicit integer step (0 = duplicate count, -1 = reordered, ...)
+        step = (2 if gap else 1) if isinstance(gap, bool) else gap
+        seq = (ctr[apid] + step) % 16384
         ctr[apid] = seq
         pid = b"\xa5" + (i + 1).to_bytes(2, "big") + b"\x5a"
         data = pid + bytes(DATA_LEN - 8) + pid
@@ -95,7 +97,9 @@ def model(pkts, sh, ctx=None):
 
 
 def shape(history):
-    return "".join(f"{f}{a}{'g' if g else ''}" for f, a, g in history)
+    def g_(g):
+        return ("g" if g else "") if isinstance(g, bool) else {0: "d", -1: "r"}.get(g, f"j{g}")
+    return "".join(f"{f}{a}{g_(g)}" for f, a, g in history)
 
 
 def run_history(ctx, defn, history, sh, start, apids, sample=False):
@@ -194,6 +198,18 @@ def run(ctx):
             start = starts[(n // 4) % 3] if L >= 2 else 16382
             run_history(ctx, defn, list(history), sh, start, apids2, sample=(n in (300, 4500)))
     ctx.exhaustive_space(f"all histories of length <= {maxlen} over 16 symbols", n // ctx.nshards)
+    # wider step alphabet {in-sequence, skip one, duplicate count, step back}: all histories of length <= 3 (thorough: 4)
+    alphabet4 = [(f, a, g) for f in "FCLU" for a in (0, 1) for g in (1, 2, 0, -1)]
+    m = 0
+    for L in range(1, ctx.size(3, 4) + 1):
+        for history in itertools.product(alphabet4, repeat=L):
+            m += 1
+            if not ctx.mine(m):
+                continue
+            if all(g in (1, 2) for _, _, g in history):
+                continue   # covered by the boolean alphabet above
+            run_history(ctx, defn, list(history), shs[m % 4], starts[(m // 4) % 3], apids2, sample=(m == 5000))
+    ctx.exhaustive_space(f"all histories of length <= {ctx.size(3, 4)} over 32 symbols (steps +1,+2,0,-1)", m // ctx.nshards)
     # all four secondary-header lengths on every history of length <= 3
     for L in range(1, 4):
         for hi, history in enumerate(itertools.product(alphabet, repeat=L)):
@@ -207,6 +223,6 @@ def run(ctx):
         hist = []
         for _ in range(L):
             f = rng.choices("FCLU", weights=(3, 4, 3, 2))[0]
-            hist.append((f, rng.randrange(3), rng.random() < 0.12))
+            hist.append((f, rng.randrange(3), rng.choice([False] * 8 + [True, 0, -1, 3])))
         run_history(ctx, defn, hist, rng.choice(shs + [2, 8]), rng.choice(starts + [rng.randrange(16384)]), apids3,
                     sample=(i == 0))
